@@ -86,3 +86,26 @@ def tok(key, whole=None, **groups):
     if whole is not None:
         g[0] = whole
     return (key, match_obj(g, name=key))
+
+
+# ---- abstract document model for the matcher-side tables ------------------------------------------------------------
+class NSKey(str):
+    """Stand-in for bs4's NamespacedAttribute: a str that also carries .namespace and .name (the local name)."""
+    def __new__(cls, text, namespace=None, name=None):
+        o = super().__new__(cls, text)
+        o.namespace = namespace
+        o.name = name
+        return o
+
+
+def el_obj(name='el', prefix=None, namespace=None, attrs=None, is_xml=False, label=None, parent=None, **extra):
+    """An element: the fields the accessors of _DocumentNav read (name, prefix, namespace, attrs, _is_xml, parent)."""
+    return Obj(_cls=None, _name=label or f'<{name}>', name=name, prefix=prefix, namespace=namespace,
+               attrs=dict(attrs or {}), _is_xml=is_xml, parent=parent, __isa__=('bs4.Tag',), **extra)
+
+
+def matcher_obj(is_xml=False, is_html=True, namespaces=None, has_html_namespace=False, **extra):
+    f = dict(is_xml=is_xml, is_html=is_html, namespaces={} if namespaces is None else namespaces,
+             has_html_namespace=has_html_namespace, iframe_restrict=False)
+    f.update(extra)
+    return Obj(_cls='css_match.CSSMatch', _name='matcher', **f)
